@@ -172,7 +172,19 @@ where
     if let Some((_, d)) = compression(comp) {
         sb = sb.with_decompression(d);
     }
-    let mut sub = sb.open().await?;
+    let mut sub_stream = sb.open().await?;
+    // The subscriber is consumed by a task of its own, woken only by the subscriber's own wakers:
+    // wrapping `next()` in a timeout would re-poll it when the timer fires and mask a lost wake-up.
+    let (item_tx, mut sub) = tokio::sync::mpsc::unbounded_channel::<Option<selium::std::errors::Result<Item>>>();
+    let reader = tokio::spawn(async move {
+        loop {
+            let it = sub_stream.next().await;
+            let end = it.is_none();
+            if item_tx.send(it).is_err() || end {
+                break;
+            }
+        }
+    });
 
     // make sure the subscription took effect before the first send: a sentinel publisher sends
     // numbered sync items until the subscriber yields one, then an end marker
@@ -191,7 +203,7 @@ where
             }
             sentinel.send(Item::make(SENTINEL + k, 0, rng)).await?;
             k += 1;
-            if let Ok(Some(Ok(it))) = tokio::time::timeout(Duration::from_millis(20), sub.next()).await {
+            if let Ok(Some(Some(Ok(it)))) = tokio::time::timeout(Duration::from_millis(20), sub.recv()).await {
                 if it.index() >= SENTINEL {
                     seen = true;
                 }
@@ -200,10 +212,13 @@ where
         sentinel.send(Item::make(SENTINEL_END, 0, rng)).await?;
         sentinel.finish().await?;
         loop {
-            match tokio::time::timeout(Duration::from_secs(10), sub.next()).await {
-                Ok(Some(Ok(it))) if it.index() == SENTINEL_END => break,
-                Ok(Some(Ok(_))) => continue,
-                other => return Err(anyhow!("sentinel end marker never arrived: {:?}", other.is_ok())),
+            match tokio::time::timeout(Duration::from_secs(10), sub.recv()).await {
+                Ok(Some(Some(Ok(it)))) if it.index() == SENTINEL_END => break,
+                Ok(Some(Some(Ok(_)))) => continue,
+                other => {
+                    reader.abort();
+                    return Err(anyhow!("sentinel end marker never arrived: {:?}", other.is_ok()));
+                }
             }
         }
     }
@@ -243,18 +258,18 @@ where
     let mut got = 0usize;
     let mut timed_out = false;
     while got < sent.len() {
-        match tokio::time::timeout(Duration::from_secs(4), sub.next()).await {
-            Ok(Some(Ok(it))) => {
+        match tokio::time::timeout(Duration::from_secs(4), sub.recv()).await {
+            Ok(Some(Some(Ok(it)))) => {
                 let i = it.index();
                 let eq = i >= 1 && (i as usize) <= sent.len() && sent[i as usize - 1] == it;
                 got += 1;
                 log.emit("sub_item", json!({"i": i, "eq": eq}));
             }
-            Ok(Some(Err(e))) => {
+            Ok(Some(Some(Err(e)))) => {
                 log.emit("sub_err", json!({"err": e.to_string()}));
                 break;
             }
-            Ok(None) => {
+            Ok(Some(None)) | Ok(None) => {
                 log.emit("sub_end", json!({}));
                 break;
             }
@@ -267,12 +282,13 @@ where
     // and nothing else
     let mut extra = 0;
     if !timed_out {
-        if let Ok(Some(Ok(it))) = tokio::time::timeout(Duration::from_millis(30), sub.next()).await {
+        if let Ok(Some(Some(Ok(it)))) = tokio::time::timeout(Duration::from_millis(30), sub.recv()).await {
             extra += 1;
             log.emit("sub_item", json!({"i": it.index(), "eq": false}));
         }
     }
     log.emit("done", json!({"sent": sent.len(), "got": got, "timed_out": timed_out, "extra": extra}));
+    reader.abort();
     Ok(())
 }
 
